@@ -149,6 +149,38 @@ class VertexSelection(Scenario):
             return "ok"
 
 
+class DataSelection(Scenario):
+    """data.mask_by_extent / data.copy_from_extent called on vertex and cell data of a curve or surface"""
+    pid = "C13"
+    builtins_for = (UTILS,)
+
+    def body(self, cx):
+        kind, n, m, d, inverse = (self.params[x] for x in ("kind", "n", "m", "d", "inverse"))
+        w = {"curve": 2, "surface": 3}[kind]
+        ws, obj, vd, cd = _mk_cellobj(kind, n, m)
+        with self.engine(cx) as X:
+            V = [[cx.real(f"v{i}{a}") for a in "xyz"] for i in range(n)]
+            C = [[cx.int(f"c{i}_{a}", 0, n) for a in range(w)] for i in range(m)]
+            D = [cx.real(f"d{i}") for i in range(n)]
+            CD = [cx.real(f"e{i}") for i in range(m)]
+            obj.vertices = mk_array(X, [x for r in V for x in r], (n, 3), "float64")
+            obj.cells = mk_array(X, [x for r in C for x in r], (m, w), "int32")
+            vd.values = mk_array(X, D, (n,), "float64")
+            cd.values = mk_array(X, CD, (m,), "float64")
+            lo, hi, ext = _box(cx, X, d)
+            qual = [_inside(V[j], lo, hi, inverse) for j in range(n)]
+            # a cell qualifies when all of its vertices pass the (possibly complementary) test
+            cell_in = [And([select(qual, C[c][a]) for a in range(w)]) for c in range(m)]
+            vm = vd.mask_by_extent(ext, inverse=inverse)
+            cx.prove(vm is not None and shape(vm) == (n,) and And([Iff(a, b) for a, b in zip(elems(vm), qual)]),
+                     "vertex data mask == closed-box predicate on the parent's vertices", "data mask exact")
+            cm = cd.mask_by_extent(ext, inverse=inverse)
+            cx.prove(cm is not None and shape(cm) == (m,) and And([Iff(a, b) for a, b in zip(elems(cm), cell_in)]),
+                     "cell data mask == cells whose vertices all qualify", "data mask exact")
+            cx.observe("vmask", [bool(x) if cx.mode != "sym" else x for x in elems(vm)] if vm is not None else None)
+            return "ok"
+
+
 def _mk_grid(nu, nv):
     from geoh5py.workspace import Workspace
     from geoh5py.objects import Grid2D
@@ -272,7 +304,9 @@ def scenarios(tier, seed):
               GridSelection(nu=2, nv=2, d=2, inverse=False),
               GridSelection(nu=3, nv=1, d=3, inverse=False),
               GridSelection(nu=2, nv=2, d=2, inverse=True),
-              GridSelection(nu=3, nv=2, d=2, inverse=False, rot=("3/5", "4/5"))]
+              GridSelection(nu=4, nv=2, d=2, inverse=False, rot=("3/5", "4/5")),
+              DataSelection(kind="curve", n=3, m=2, d=2, inverse=True),
+              DataSelection(kind="surface", n=3, m=1, d=3, inverse=False)]
     else:
         for d in (2, 3):
             for inv in (False, True):
@@ -284,7 +318,13 @@ def scenarios(tier, seed):
         S += [GridSelection(nu=3, nv=3, d=2, inverse=False), GridSelection(nu=4, nv=2, d=2, inverse=False),
               GridSelection(nu=3, nv=2, d=2, inverse=False, rot=("3/5", "4/5")),
               GridSelection(nu=2, nv=3, d=2, inverse=False, rot=("5/13", "12/13")),
-              GridSelection(nu=3, nv=2, d=2, inverse=False, rot=("0", "1"))]
+              GridSelection(nu=3, nv=2, d=2, inverse=False, rot=("0", "1")),
+              GridSelection(nu=4, nv=2, d=2, inverse=False, rot=("3/5", "4/5")),
+              GridSelection(nu=2, nv=4, d=2, inverse=False, rot=("5/13", "12/13"))]
+        for kind, n, m in (("curve", 4, 3), ("surface", 4, 2)):
+            for d in (2, 3):
+                for inv in (False, True):
+                    S.append(DataSelection(kind=kind, n=n, m=m, d=d, inverse=inv))
     return S
 
 
@@ -300,8 +340,8 @@ def main(tier, seed):
         ],
         outside=["groups recursing over children, GeoImage, drillholes, block models, octrees", "arbitrary (irrational) rotations and non-zero dip",
                  "shapes larger than the bounds", "float rounding at box faces"],
-        bounds={"quick": "<=3 points, <=2 cells, boxes in 2-D and 3-D, inverse on/off; Grid2D 2x2, 3x1 and a rotated 3x2",
+        bounds={"quick": "<=3 points, <=2 cells, boxes in 2-D and 3-D, inverse on/off; Grid2D 2x2, 3x1 and a rotated 4x2; data-level masks on curve / surface children",
                 "thorough": "<=4 points, <=3 cells; Grid2D up to 3x3 / 4x2, three rational rotations"}[tier],
-        expected_outcomes={"VertexSelection": {"ok"}, "GridSelection": {"ok"}},
+        expected_outcomes={"VertexSelection": {"ok"}, "GridSelection": {"ok"}, "DataSelection": {"ok"}},
         timeout_ms=10000 if tier == "quick" else 30000,
     )
